@@ -10,6 +10,9 @@ import (
 )
 
 // codecOp is one Put*/Pop* call on a tl.Encoder / tl.Decoder along a path (engine E5).
+// altSep separates the alternative origins of one value in a label.
+const altSep = " ‖ "
+
 type codecOp struct {
 	cs     an.CallSite
 	method string
@@ -27,7 +30,7 @@ func (c *Ctx) valueLabel(tr *an.Tracer, v ssa.Value) string {
 	if cv, ok := v.(*ssa.Convert); ok {
 		return c.valueLabel(tr, cv.X)
 	}
-	o := tr.OriginString(v)
+	o := strings.Join(tr.Origins(v), altSep)
 	if strings.HasPrefix(o, "alloc:") || strings.HasPrefix(o, "make:") {
 		// a local buffer: describe it by what was written into it
 		d := an.NewDeps(nil).Of(v)
@@ -176,8 +179,12 @@ func matchSpec(ops []codecOp, spec []specItem) []string {
 			diffs = append(diffs, sprintf("position %d (%s): width %s, layout says %s", i, spec[i].name, ops[i].width, spec[i].width))
 		}
 		for _, l := range spec[i].labels {
-			if !strings.Contains(ops[i].label, l) {
-				diffs = append(diffs, sprintf("position %d should be %s (%s) but is %s", i, spec[i].name, l, ops[i].label))
+			// the label lists every origin of the value (" | "-separated): each of them must be the specified one
+			for _, alt := range strings.Split(ops[i].label, altSep) {
+				if !strings.Contains(alt, l) {
+					diffs = append(diffs, sprintf("position %d should be %s (%s) but is %s", i, spec[i].name, l, ops[i].label))
+					break
+				}
 			}
 		}
 	}
